@@ -519,3 +519,42 @@ Proof.
     destruct (Z.eq_dec (nth i f 0) (nth i c 0)) as [Efc|Efc]; [|elim E; apply Hd; exact Efc].
     destruct (Hq (i / u)%nat) as [H|H]; rewrite (H i (Hunit i)); congruence.
 Qed.
+
+(* the writer's loop on two memories: the same positions are written, with the same values *)
+Lemma write_val_det skip : forall s1 s2 a d s1' e1 s2' e2, write_val skip a s1 d = Ok (s1', e1) ->
+  write_val skip a s2 d = Ok (s2', e2) -> length s1 = length s2 ->
+  e1 = e2 /\ forall i, nth i s1' 0 = nth i s2' 0 \/ (nth i s1' 0 = nth i s1 0 /\ nth i s2' 0 = nth i s2 0).
+Proof.
+  induction s1 as [|y1 s1 IH]; intros s2 a d s1' e1 s2' e2 H1 H2 HL.
+  - destruct s2; [|discriminate]. destruct d; cbn in H1, H2; [|discriminate]. injection H1 as <- <-. injection H2 as <- <-.
+    split; [reflexivity|]. intro i. right. auto.
+  - destruct s2 as [|y2 s2]; [discriminate|]. destruct d as [|x d].
+    + cbn in H1, H2. injection H1 as <- <-. injection H2 as <- <-. split; [reflexivity|]. intro i. right. auto.
+    + cbn [write_val] in H1, H2. destruct (in_skip skip a).
+      * destruct (write_val skip (a + 1) s1 (x :: d)) as [[t1 f1]| | |] eqn:E1; cbn in H1; try discriminate.
+        destruct (write_val skip (a + 1) s2 (x :: d)) as [[t2 f2]| | |] eqn:E2; cbn in H2; try discriminate.
+        injection H1 as <- <-. injection H2 as <- <-.
+        destruct (IH s2 (a + 1) (x :: d) t1 f1 t2 f2 E1 E2 ltac:(cbn in HL; lia)) as [Ee Hi]. split; [exact Ee|].
+        intros [|i]; [right; auto | apply Hi].
+      * destruct (write_val skip (a + 1) s1 d) as [[t1 f1]| | |] eqn:E1; cbn in H1; try discriminate.
+        destruct (write_val skip (a + 1) s2 d) as [[t2 f2]| | |] eqn:E2; cbn in H2; try discriminate.
+        injection H1 as <- <-. injection H2 as <- <-.
+        destruct (IH s2 (a + 1) d t1 f1 t2 f2 E1 E2 ltac:(cbn in HL; lia)) as [Ee Hi]. split; [exact Ee|].
+        intros [|i]; [left; reflexivity | apply Hi].
+Qed.
+Lemma place_det skip c1 c2 start d c1' e1 c2' e2 : place skip c1 start d = Ok (c1', e1) -> place skip c2 start d = Ok (c2', e2) ->
+  length c1 = length c2 -> 0 <= start -> start <= len c1 ->
+  e1 = e2 /\ forall x, 0 <= x -> get c1' x = get c2' x \/ (get c1' x = get c1 x /\ get c2' x = get c2 x).
+Proof.
+  unfold place. intros H1 H2 HL H0 Hs. replace (start <? 0) with false in H1, H2 by lia.
+  destruct (write_val skip start (skipn (Z.to_nat start) c1) d) as [[t1 f1]| | |] eqn:E1; cbn in H1; try discriminate.
+  destruct (write_val skip start (skipn (Z.to_nat start) c2) d) as [[t2 f2]| | |] eqn:E2; cbn in H2; try discriminate.
+  injection H1 as <- <-. injection H2 as <- <-.
+  destruct (write_val_det skip _ _ _ _ _ _ _ _ E1 E2 ltac:(rewrite !skipn_length; lia)) as [Ee Hi]. split; [exact Ee|].
+  assert (Hn : (Z.to_nat start <= length c1)%nat) by (unfold len in Hs; lia).
+  intros x Hx. unfold get. destruct (Z.ltb_spec x start) as [Hlt|Hge].
+  - right. rewrite !app_nth1 by (rewrite firstn_length_le by lia; lia). rewrite !nth_firstn_lt by lia. auto.
+  - rewrite !app_nth2 by (rewrite firstn_length_le by lia; lia). rewrite !firstn_length_le by lia.
+    destruct (Hi (Z.to_nat x - Z.to_nat start)%nat) as [E|[Ea Eb]]; [left; exact E|right].
+    rewrite Ea, Eb, !nth_skipn. replace (Z.to_nat start + (Z.to_nat x - Z.to_nat start))%nat with (Z.to_nat x) by lia. auto.
+Qed.
